@@ -616,7 +616,27 @@ func genScenario(c *caseRun, rng *rand.Rand, steps int) {
 				// while stopped only the clock moves
 				toNext := w.Genesis + int64(w.CurrentRound())*w.Period - w.Now()
 				c.advance(toNext)
+				long := !c.syncOn && rng.Intn(2) == 0
+				if long {
+					// a long outage: the head lags the clock by more than the aggregator's window
+					for k := 0; k < 6; k++ {
+						c.advance(w.Genesis + int64(w.CurrentRound())*w.Period - w.Now())
+					}
+				}
 				c.do(Event{Kind: "restart"})
+				if long && w.CurrentRound() > w.Head()+5 {
+					// valid partials of a threshold of members for the round the clock is in: far outside
+					// (head, head+4], they are neither cached nor aggregated nor a reason to sync
+					far := w.CurrentRound()
+					cnt := 0
+					for j := 0; j < n && cnt < w.Epochs[live].Thr; j++ {
+						if j == w.Epochs[live].Me || !w.Epochs[live].IsMember(j) {
+							continue
+						}
+						c.do(Event{Kind: "part", From: j, Claim: j, Round: far, Prev: "ref", Ep: live})
+						cnt++
+					}
+				}
 			}
 		default:
 			// complete the round honestly: thr-1 other members deliver valid partials -- sometimes
